@@ -17,7 +17,7 @@ def obligations(tier):
         for k0 in range(10):
             obs.append(Ob(f"C18.framing.5lines.first{k0}", "CH", "harness.h_lines", "framing_errors", 3000, {"VF_NLINES": 5, "VF_K0": k0},
                           funcs=("chartparse.chart.Chart._partition_lines_by_data_section",), bounds="all sequences of 5 lines with the first shape fixed"))
-    idxs = ["0,5", "7", "5", "0,0", "0,7"] if tier == "quick" else ["0,5", "7", "5", "0,0", "6,7", "7,0", "5,6", "1,5", "4,4"]
+    idxs = ["0,5", "7", "5", "0,0", "0,7", "4,4"] if tier == "quick" else ["0,5", "7", "5", "0,0", "6,7", "7,0", "5,6", "1,5", "4,4"]
     for ix in idxs:
         obs.append(Ob(f"C18.instrument_any[{ix}]", "CH", "harness.h_c18", "instrument_any", 1500, {"VF_IDX": ix, "VF_NSP": 1 if tier == "quick" else 2},
                       funcs=("chartparse.instrument.InstrumentTrack.from_chart_lines",), bounds="arbitrary tick order / duplicates / flag-only / forced-first; ints in [0,1e8)"))
